@@ -263,29 +263,78 @@ theorem C10_set_bool (t : Trie) (h : wf t = true) :
       rw [has_of_not_truthy h ht q] at hq
       cases hq
 
-/-- FULL statement of `add` without the `'$'` exclusion … -/
-def C10_set_add_Full : Prop :=
-  ∀ (t : Trie) (p : Path), wf t = true →
-    ∃ t', Trie.add false t p = .ok (t', !has t p) ∧ ∀ q, Trie.contains t' q = .ok (decide (q = p) || has t q)
+/-! ### All user paths, including the key `'$'` (fix C10-F19)
 
-/-- … is false (finding F19): adding the one-key path `'$'` to the empty set makes the *root* path
-a member — the key collides with the end marker. -/
-theorem C10_set_dollar_counterexample : ¬ C10_set_add_Full := by
-  intro h
-  obtain ⟨t', ha, hc⟩ := h Trie.empty [dollar] rfl
-  have h1 : Trie.add false Trie.empty [dollar] = .ok (.node [(dollar, .node [(dollar, .mark)])], true) := rfl
-  rw [h1] at ha
-  cases ha
-  have := hc []
-  revert this
+The public operations store a user path `p` as `escP p` (the user key `'$'` is replaced by a private
+object; see `escKey`), which never contains the marker key. So the refinement above applies to
+*every* path over str and int keys — no exclusion is left. `hasU t p := has t (escP p)` is
+membership of the user path `p`. -/
+
+theorem C10_set_user_paths_ok (p : Path) : dollarFree (escP p) = true := dollarFree_escP p
+
+theorem C10_set_add_all (t : Trie) (p : Path) (h : wf t = true) :
+    ∃ t', Trie.add false t (escP p) = .ok (t', !has t (escP p)) ∧ wf t' = true ∧
+      ∀ q, has t' (escP q) = (decide (q = p) || has t (escP q)) := by
+  obtain ⟨t', a, b, c⟩ := C10_set_add t (escP p) h (dollarFree_escP p)
+  exact ⟨t', a, b, fun q => by rw [c (escP q) (dollarFree_escP q), decide_escP_eq]⟩
+
+theorem C10_set_remove_all (t : Trie) (p : Path) (h : wf t = true) :
+    ∃ t', Trie.remove t (escP p) = .ok (t', has t (escP p)) ∧ wf t' = true ∧
+      ∀ q, has t' (escP q) = (!decide (q = p) && has t (escP q)) := by
+  obtain ⟨t', a, b, c⟩ := C10_set_remove t (escP p) h (dollarFree_escP p)
+  exact ⟨t', a, b, fun q => by rw [c (escP q) (dollarFree_escP q), decide_escP_eq]⟩
+
+theorem C10_set_contains_all (t : Trie) (p : Path) (h : wf t = true) :
+    Trie.contains t (escP p) = .ok (has t (escP p)) :=
+  C10_set_contains t (escP p) h (dollarFree_escP p)
+
+/-- iteration (un-escaped) yields exactly the member user paths. -/
+theorem C10_set_iter_all (t : Trie) (q : Path) (h : wf t = true) :
+    q ∈ (toList t).map unescP ↔ has t (escP q) = true := by
+  constructor
+  · intro hm
+    obtain ⟨r, hr, rfl⟩ := List.mem_map.mp hm
+    obtain ⟨hd, hh⟩ := (C10_set_iter t r h).mp hr
+    rw [escP_unescP r hd]; exact hh
+  · intro hh
+    have := (C10_set_iter t (escP q) h).mpr ⟨dollarFree_escP q, hh⟩
+    exact List.mem_map.mpr ⟨escP q, this, unescP_escP q⟩
+
+/-- `rebase` on user paths. -/
+theorem C10_set_rebase_all (t : Trie) (p q : Path) (h : wf t = true) :
+    wf (rebase t (escP p)) = true ∧
+    has (rebase t (escP p)) (escP q) = (match dropPrefix q p with
+      | some r => has t (escP r)
+      | none => false) := by
+  obtain ⟨a, b⟩ := C10_set_rebase t (escP p) h (dollarFree_escP p)
+  refine ⟨a, ?_⟩
+  rw [b]
+  have key : ∀ (p q : Path), (match dropPrefix (escP q) (escP p) with
+      | some r => has t r
+      | none => false) = (match dropPrefix q p with
+      | some r => has t (escP r)
+      | none => false) := by
+    intro p
+    induction p with
+    | nil => intro q; cases q <;> simp [escP, dropPrefix]
+    | cons x p ih =>
+      intro q
+      cases q with
+      | nil => simp [escP, dropPrefix]
+      | cons y q =>
+        simp only [escP, List.map_cons, dropPrefix]
+        by_cases hxy : y = x
+        · subst hxy; simpa [escP] using ih q
+        · have : ¬ escKey y = escKey x := fun e => hxy (escKey_injective y x e)
+          simp [hxy, this]
+  exact key p q
+
+/-- F19 regression instances: the one-key path `'$'` is an ordinary member; the root path is not
+affected, and adding `'$'` to a set holding the root path works. -/
+example : (Trie.add false Trie.empty (escP [dollar])).map (fun r => (toList r.1).map unescP) = .ok [[dollar]] := by
   decide
-
-/-- F19, second face: on a set that contains the root path, adding `'$'` raises AssertionError;
-and iterating `{ '$' }` yields the root path. -/
-theorem C10_set_dollar_assertion :
-    (Trie.add false (.node [(dollar, .mark)]) [dollar]).map (fun _ => ()) = .error .assertion ∧
-    toList (.node [(dollar, .node [(dollar, .mark)])]) = [[]] := by
-  constructor <;> rfl
+example : (Trie.add false (.node [(dollar, .mark)]) (escP [dollar])).map (fun r => (toList r.1).map unescP) =
+    .ok [[], [dollar]] := by decide
 
 /-! Non-vacuity: a well-formed trie with several members, `'$'`-free paths. -/
 example : wf (.node [(.s ['a'], .node [(dollar, .mark), (.i 0, .node [(dollar, .mark)])]), (dollar, .mark)]) = true := by
